@@ -81,19 +81,38 @@ def allWrites (pw : List (Leaf × List (WReq UnitId × Bytes))) : List (WReq Uni
 def placements (cfg : Cfg) (wb : List (WReq UnitId × Bytes)) : List (Option Place) :=
   if cfg.batching then place cfg.slab (wb.map (·.1)) 0 0 else wb.map (fun _ => none)
 
-/-- What the manifest records for one unit after relocation: location and byte range. -/
-abbrev UnitLoc := Loc UnitId × Option (Nat × Nat)
+/-- What the manifest records for one unit after relocation: location and byte range. The location type `L`
+is a parameter: `Loc UnitId` for one rank's own storage view, `Nat × Loc UnitId` (writer rank, location) for the
+job-wide store of `TsModel/World.lean`. -/
+abbrev ULoc (L : Type) := L × Option (Nat × Nat)
+
+abbrev UnitLoc := ULoc (Loc UnitId)
 
 def unitLoc (r : WReq UnitId) : Option Place → UnitLoc
   | none => (.orig r.path, none)
   | some p => (.slab p.slab, some (p.lo, p.hi))
 
 /-- Manifest entry of a leaf (TensorEntry / ChunkedTensorEntry / ObjectEntry), data-plane fields only. -/
-inductive LeafEntry where
-  | tensor (dtype : String) (shape : List Nat) (u : UnitLoc)
-  | chunked (dtype : String) (shape : List Nat) (chunks : List ((Nat × Nat) × UnitLoc))  -- (dim-0 offset, size)
-  | blob (u : UnitLoc)
+inductive LeafEntryG (L : Type) where
+  | tensor (dtype : String) (shape : List Nat) (u : ULoc L)
+  | chunked (dtype : String) (shape : List Nat) (chunks : List ((Nat × Nat) × ULoc L))  -- (dim-0 offset, size)
+  | blob (u : ULoc L)
   deriving Repr
+
+abbrev LeafEntry := LeafEntryG (Loc UnitId)
+
+/-- The entry recorded for a leaf whose write units are recorded at the locations `units` (generic in the
+location type; `entryOfLeaf` below is the one-rank instance, `World.worldEntry` the job-wide one). -/
+def entryOfUnits {L : Type} : Leaf → List ((WReq UnitId × Bytes) × ULoc L) → Except Err (LeafEntryG L)
+  | .blob _, [e] => .ok (.blob e.2)
+  | .blob _, _ => .error .badEntry
+  | .tensor _, [] => .error .badEntry
+  | .tensor t, e :: es =>
+    match e.1.1.path.2, es with
+    | none, [] => .ok (.tensor t.dtype t.shape e.2)
+    | none, _ :: _ => .error .badEntry
+    | some _, _ =>
+      .ok (.chunked t.dtype t.shape ((e :: es).map (fun x => (x.1.1.path.2.getD (0, 0), x.2))))
 
 /-- The entry recorded for a leaf whose write units got the placements `units`. -/
 def entryOfLeaf : Leaf → List ((WReq UnitId × Bytes) × Option Place) → Except Err LeafEntry
@@ -117,7 +136,7 @@ def entriesWalk : List (Leaf × List (WReq UnitId × Bytes)) → List (Option Pl
     | _, .error e => .error e
 
 /-- Reading one recorded `(location, byte range)` from storage (`StoragePlugin.read`). -/
-def readUnit (store : Loc UnitId → Option Bytes) (u : UnitLoc) : Except Err Bytes :=
+def readUnit {L : Type} (store : L → Option Bytes) (u : ULoc L) : Except Err Bytes :=
   match store u.1 with
   | none => .error .missing
   | some f => match u.2 with
@@ -136,9 +155,9 @@ ranged read, or the tiled read of `read_object(memory_budget_bytes=…)`). Objec
 tensor is re-assembled by writing every chunk's bytes at its dim-0 position of the output tensor, in the
 completion order `order` of the chunk consumers (any permutation of the chunk list); `Slab.stage` is that
 "write each piece at its range" loop. -/
-def restoreLeafWith (store : Loc UnitId → Option Bytes) (rd : Nat → List Nat → UnitLoc → Except Err Bytes)
-    (order : List ((Nat × Nat) × UnitLoc) → List ((Nat × Nat) × UnitLoc)) :
-    LeafEntry → Except Err Leaf
+def restoreLeafWith {L : Type} (store : L → Option Bytes) (rd : Nat → List Nat → ULoc L → Except Err Bytes)
+    (order : List ((Nat × Nat) × ULoc L) → List ((Nat × Nat) × ULoc L)) :
+    LeafEntryG L → Except Err Leaf
   | .blob u => (readUnit store u).map .blob
   | .tensor dtype shape u =>
     match Ts.Serial.torchItemsize dtype with
@@ -164,19 +183,19 @@ def restoreLeafWith (store : Loc UnitId → Option Bytes) (rd : Nat → List Nat
           | .error e => .error (.serial e)
 
 /-- `restore`: every unit is read with one ranged read. -/
-def restoreLeaf (store : Loc UnitId → Option Bytes) (order : List ((Nat × Nat) × UnitLoc) → List ((Nat × Nat) × UnitLoc)) :=
+def restoreLeaf {L : Type} (store : L → Option Bytes) (order : List ((Nat × Nat) × ULoc L) → List ((Nat × Nat) × ULoc L)) :=
   restoreLeafWith store (fun _ _ u => readUnit store u) order
 
 /-- `prepare_read_tiled` + `TensorBufferConsumer`s on the flattened output: the unit's stored range is read in
 tiles of at most `limit` bytes (`Chunk.tile`) which are laid out one after the other. -/
-def readTiled (store : Loc UnitId → Option Bytes) (limit : Nat) (es : Nat) (shape : List Nat) (u : UnitLoc) : Except Err Bytes :=
+def readTiled {L : Type} (store : L → Option Bytes) (limit : Nat) (es : Nat) (shape : List Nat) (u : ULoc L) : Except Err Bytes :=
   match Ts.Chunk.tile shape true es limit u.2 with
   | .error e => .error (.chunk e)
   | .ok tiles => (mapE (fun t => readUnit store (u.1, some (t.lo, t.hi))) tiles).map List.flatten
 
 /-- `read_object(path, memory_budget_bytes = limit)` for a tensor / chunked-tensor / object entry. -/
-def readObjectBudget (store : Loc UnitId → Option Bytes) (limit : Nat)
-    (order : List ((Nat × Nat) × UnitLoc) → List ((Nat × Nat) × UnitLoc)) :=
+def readObjectBudget {L : Type} (store : L → Option Bytes) (limit : Nat)
+    (order : List ((Nat × Nat) × ULoc L) → List ((Nat × Nat) × ULoc L)) :=
   restoreLeafWith store (readTiled store limit) order
 
 end Ts.Snapshot
